@@ -424,13 +424,22 @@ func ruleFitSearchDiscipline(c *Ctx) {
 	strict := F(P.Method(plc, "fitPeer", "matchRoleStrict"))
 	fDiff := P.Field(plc, "RuleFit", "PeersWithDifferentRole")
 	fPeers := P.Field(plc, "RuleFit", "Peers")
-	c.need(rule, nrf, "append to PeersWithDifferentRole", func(x ssa.Instruction) bool {
-		st, ok := x.(*ssa.Store)
-		return ok && fieldOfAddr(st.Addr) == fDiff
-	}, []Ev{guardCall("!matchRoleStrict", false, callMatcher(strict))}, all, "a peer is listed as role mismatch only if it fails the strict role match")
+	// the list may be built in place (`rf.Peers = append(rf.Peers, …)`) or in a local that the record is made from
+	listed := func(f *types.Var) func(ssa.Instruction) bool {
+		apps := appendsInto(nrf, f)
+		return func(x ssa.Instruction) bool {
+			if len(apps) > 0 {
+				cl, ok := x.(*ssa.Call)
+				return ok && apps[cl]
+			}
+			st, ok := x.(*ssa.Store)
+			return ok && fieldOfAddr(st.Addr) == f
+		}
+	}
+	c.need(rule, nrf, "append to PeersWithDifferentRole", listed(fDiff), []Ev{guardCall("!matchRoleStrict", false, callMatcher(strict))}, all, "a peer is listed as role mismatch only if it fails the strict role match")
 	okAll := false
 	for _, l := range loopsOf(nrf) {
-		if everyIterationCalls(l, func(x ssa.Instruction) bool { st, ok := x.(*ssa.Store); return ok && fieldOfAddr(st.Addr) == fPeers }) &&
+		if everyIterationCalls(l, listed(fPeers)) &&
 			everyIterationCalls(l, func(x ssa.Instruction) bool { return isCallTo(x, strict) }) {
 			okAll = true
 		}
@@ -830,25 +839,42 @@ func ruleSearchExhaustive(c *Ctx) {
 			if bt, isB := phi.Type().Underlying().(*types.Basic); !isB || bt.Info()&types.IsBoolean == 0 {
 				continue
 			}
-			for i, e := range phi.Edges {
-				if i >= len(l.header.Preds) || !l.blocks[l.header.Preds[i]] {
-					continue
-				}
-				keeps := derivesThroughBool(e, func(v ssa.Value) bool { return v == ssa.Value(phi) }, 6)
-				calls := derivesThroughBool(e, func(v ssa.Value) bool { return valueIsCallTo(v, F(en)) }, 6)
-				// the two rows of the truth table that matter, for the shapes `call || old`, `old || call`,
-				// `if call { flag = true }`: (call, ¬old) ↦ true and (¬call, old) ↦ true
-				if keeps && calls {
-					isCall := func(v ssa.Value) bool { return valueIsCallTo(v, F(en)) }
-					isOld := func(v ssa.Value) bool { return v == ssa.Value(phi) }
-					for _, row := range [][2]bool{{true, false}, {false, true}} {
-						if r, ok := evalFlag(e, isCall, isOld, row[0], row[1], 6); ok && !r {
-							keeps = false
-						}
+			// the two rows of the truth table that matter, for the shapes `call || old`, `old || call`,
+			// `if call { flag = true }`: (call, ¬old) ↦ true and (¬call, old) ↦ true, whichever way round the loop is taken
+			isCall := func(v ssa.Value) bool { return valueIsCallTo(v, F(en)) }
+			isOld := func(v ssa.Value) bool { return v == ssa.Value(phi) }
+			keeps, calls, back := true, true, 0
+			for ri, row := range [][2]bool{{true, false}, {false, true}} {
+				ways := 0
+				for i, e := range phi.Edges {
+					if i >= len(l.header.Preds) || !l.blocks[l.header.Preds[i]] {
+						continue
+					}
+					back++
+					if !flagEdgeFeasible(l.header, i, isCall, isOld, row[0], row[1], 6) {
+						continue
+					}
+					ways++
+					r, ok := evalFlag(e, isCall, isOld, row[0], row[1], 6)
+					if !ok {
+						// not evaluable: at least both inputs reach the value
+						r = derivesThroughBool(e, isOld, 6) && derivesThroughBool(e, isCall, 6)
+					}
+					if !r && ri == 0 {
+						calls = false
+					}
+					if !r && ri == 1 {
+						keeps = false
 					}
 				}
-				c.Check(keeps && calls, rule, "improvement flag of "+fnName(en), "the flag carried round the candidate loop is (this combination improved) ∨ (an earlier one did): no improvement is forgotten", P.instrPos(phi), fmt.Sprintf("keeps the earlier answers: %v, takes the recursive answer: %v", keeps, calls))
+				if ways == 0 {
+					keeps, calls = false, false
+				}
 			}
+			if back == 0 {
+				continue
+			}
+			c.Check(keeps && calls, rule, "improvement flag of "+fnName(en), "the flag carried round the candidate loop is (this combination improved) ∨ (an earlier one did): no improvement is forgotten", P.instrPos(phi), fmt.Sprintf("keeps the earlier answers: %v, takes the recursive answer: %v", keeps, calls))
 		}
 	}
 	// (2) compareBest never answers false after the search of the following rules reported an improvement
@@ -859,7 +885,11 @@ func ruleSearchExhaustive(c *Ctx) {
 		if !ok || len(r.Results) != 1 {
 			return false
 		}
-		b, isC := constBool(resolved(retVal(r, 0)))
+		rv := resolved(retVal(r, 0))
+		if valueIsCallTo(rv, fitRule) {
+			return false // the answer of the following rules handed up as it is
+		}
+		b, isC := constBool(rv)
 		return !(isC && b)
 	}, []Ev{guardCall("fitRule(index+1) reported an improvement", true, callMatcher(fitRule))}, func(h []bool) bool { return !h[0] },
 		"when a tie on this rule let the following rules find a better fit, the improvement is reported to the rule above")
@@ -993,6 +1023,61 @@ func controllingConds(b *ssa.BasicBlock, depth int) []ssa.Value {
 	return out
 }
 
+// appendsInto: the append calls of fn whose result ends up stored in field f (directly, or through a local
+// slice the field is finally set from)
+func appendsInto(fn *ssa.Function, f *types.Var) map[*ssa.Call]bool {
+	out := map[*ssa.Call]bool{}
+	var apps []*ssa.Call
+	var stores []*ssa.Store
+	for _, b := range fn.Blocks {
+		for _, ins := range b.Instrs {
+			switch x := ins.(type) {
+			case *ssa.Call:
+				if bi, ok := x.Call.Value.(*ssa.Builtin); ok && bi.Name() == "append" {
+					apps = append(apps, x)
+				}
+			case *ssa.Store:
+				if fieldOfAddr(x.Addr) == f {
+					stores = append(stores, x)
+				}
+			}
+		}
+	}
+	for _, st := range stores {
+		for _, a := range apps {
+			a := a
+			if derivesFrom(st.Val, func(v ssa.Value) bool { return v == ssa.Value(a) }, 8) {
+				out[a] = true
+			}
+		}
+	}
+	return out
+}
+
+// flagEdgeFeasible: can control enter blk through its i-th predecessor when the atom and the flag so far have
+// the given values? Decided by the If instructions on the single-predecessor chain above that predecessor.
+func flagEdgeFeasible(blk *ssa.BasicBlock, i int, isCall, isOld valPred, call, old bool, depth int) bool {
+	b, child := blk.Preds[i], blk
+	for d := 0; d < 4 && b != nil; d++ {
+		if iff, ok := b.Instrs[len(b.Instrs)-1].(*ssa.If); ok {
+			if cv, okc := evalFlag(iff.Cond, isCall, isOld, call, old, depth-1); okc {
+				taken := b.Succs[0] == child
+				if len(b.Succs) == 2 && b.Succs[0] == b.Succs[1] {
+					taken = cv
+				}
+				if cv != taken {
+					return false
+				}
+			}
+		}
+		if len(b.Preds) != 1 {
+			break
+		}
+		child, b = b, b.Preds[0]
+	}
+	return true
+}
+
 // evalFlag evaluates a boolean built from a call result and an old flag through
 // φs of short-circuit operators and if-assignments, for one row of the truth
 // table. ok=false when the shape is not understood (the caller then keeps the
@@ -1003,6 +1088,9 @@ func evalFlag(v ssa.Value, isCall, isOld valPred, call, old bool, depth int) (bo
 	}
 	switch {
 	case isCall(v):
+		if bo, isB := v.(*ssa.BinOp); isB && bo.Op == token.NEQ {
+			return !call, true // the atom written as an inequality
+		}
 		return call, true
 	case isOld(v):
 		return old, true
@@ -1024,25 +1112,7 @@ func evalFlag(v ssa.Value, isCall, isOld valPred, call, old bool, depth int) (bo
 			if i >= len(x.Block().Preds) {
 				return false, false
 			}
-			feasible := true
-			b, child := x.Block().Preds[i], x.Block()
-			for d := 0; d < 4 && b != nil; d++ {
-				if iff, ok := b.Instrs[len(b.Instrs)-1].(*ssa.If); ok {
-					if cv, okc := evalFlag(iff.Cond, isCall, isOld, call, old, depth-1); okc {
-						taken := b.Succs[0] == child
-						if len(b.Succs) == 2 && b.Succs[0] == b.Succs[1] {
-							taken = cv
-						}
-						if cv != taken {
-							feasible = false
-						}
-					}
-				}
-				if len(b.Preds) != 1 {
-					break
-				}
-				child, b = b, b.Preds[0]
-			}
+			feasible := flagEdgeFeasible(x.Block(), i, isCall, isOld, call, old, depth)
 			if !feasible {
 				continue
 			}
